@@ -5,7 +5,7 @@
 //! oracle is a reference loader written independently over `serde_json::Value`.
 use crate::common::*;
 use feos::epcsaft::{ElectrolytePcSaft, ElectrolytePcSaftParameters};
-use feos::gc_pcsaft::{GcPcSaft, GcPcSaftEosParameters};
+use feos::gc_pcsaft::{GcPcSaft, GcPcSaftEosParameters, GcPcSaftFunctional, GcPcSaftFunctionalParameters};
 use feos::ideal_gas::{Dippr, Joback};
 use feos::pcsaft::{PcSaft, PcSaftParameters};
 use feos::pets::{Pets, PetsParameters};
@@ -1146,14 +1146,78 @@ fn run_segments(env: &Env, out: &mut RunOutcome, dg: &mut Digest) {
                     }
                 }
                 let mut behaviours = Vec::new();
+                // the same collection through the parameters of the Helmholtz energy functional
+                // (every segment instance is kept, bonds form a graph)
+                let behave_func = |p: GcPcSaftFunctionalParameters| -> Vec<f64> {
+                    let n = p.chemical_records.len();
+                    let mw = p.molarweight.to_vec();
+                    let msum: Vec<f64> = (0..n).map(|c| p.m.iter().zip(p.component_index.iter()).filter(|(_, ci)| **ci == c).map(|(m, _)| *m).sum()).collect();
+                    let nb = p.bonds.edge_count() as f64;
+                    let func = GcPcSaftFunctional::new(Arc::new(p));
+                    let s = state(n);
+                    let mut v = vec![func.residual_helmholtz_energy(&s), func.compute_max_density(&s.moles), nb];
+                    v.extend(mw);
+                    v.extend(msum);
+                    v
+                };
+                let mut behaviours_func = Vec::new();
                 out.count("oracle.compared", 1);
                 for (mf, sf, bf) in runs {
-                    match GcPcSaftEosParameters::from_json_segments(&names_ref, env.disk.path(mf), env.disk.path(sf), bf, opt) {
+                    match GcPcSaftEosParameters::from_json_segments(&names_ref, env.disk.path(mf), env.disk.path(sf), bf.clone(), opt) {
                         Ok(p) => behaviours.push(behave(p)),
                         Err(e) => {
                             if !env.faulted {
                                 out.violate("rejected-valid-query", "rejected", format!("{what}: {e}"));
                             }
+                        }
+                    }
+                    match GcPcSaftFunctionalParameters::from_json_segments(&names_ref, env.disk.path(mf), env.disk.path(sf), bf, opt) {
+                        Ok(p) => behaviours_func.push(behave_func(p)),
+                        Err(e) => {
+                            if !env.faulted {
+                                out.violate("rejected-valid-query", "rejected", format!("{what} (functional parameters): {e}"));
+                            }
+                        }
+                    }
+                }
+                if let Some(b) = behaviours_func.first() {
+                    let n = mols.len();
+                    for c in 0..n {
+                        let (mut mw, mut m) = (0.0, 0.0);
+                        for (s, cnt) in seg_counts(molecule(c)) {
+                            let r = seg(&s);
+                            mw += r["molarweight"].as_f64().unwrap() * cnt;
+                            m += r["model_record"]["m"].as_f64().unwrap() * cnt;
+                        }
+                        let d = deviation(b[3 + c], mw, 1e-300).max(deviation(b[3 + n + c], m, 1e-300));
+                        out.max("hetero_sum_dev", d);
+                        if !(d <= 1e-12) {
+                            out.violate("segments-mismatch", "hetero-sums", format!("{what} (functional parameters): component {c}: molar weight {} / chain length {}, segment sums give {mw} / {m}", b[3 + c], b[3 + n + c]));
+                        }
+                    }
+                }
+                for w in behaviours_func.windows(2) {
+                    let d = same(&w[0], &w[1], 0.0);
+                    out.max("hetero_order_dev", d);
+                    if !(d <= 1e-11) {
+                        out.violate("order-dependence", "hetero-order", format!("{what} (functional parameters): behaviour depends on segment order / file order / record orientation / round trip: {:?} vs {:?}", w[0], w[1]));
+                    }
+                }
+                // subset of a heterosegmented parameter set = the directly built set
+                if !env.faulted && mols.len() >= 2 {
+                    let b0 = with_binary.then(|| env.disk.path("seg_binary.json"));
+                    let pick: Vec<usize> = (0..mols.len()).rev().take(mols.len() - 1).collect();
+                    let pnames: Vec<&str> = pick.iter().map(|&i| names_ref[i]).collect();
+                    let whole = GcPcSaftEosParameters::from_json_segments(&names_ref, env.disk.path("molecules.json"), env.disk.path("gc_segments.json"), b0.clone(), opt);
+                    let direct = GcPcSaftEosParameters::from_json_segments(&pnames, env.disk.path("molecules.json"), env.disk.path("gc_segments.json"), b0, opt);
+                    if let (Ok(whole), Ok(direct)) = (whole, direct) {
+                        let (bs, bd) = (behave(whole.subset(&pick)), behave(direct));
+                        let d = same(&bs, &bd, 0.0);
+                        out.max("hetero_subset_dev", d);
+                        out.count("op.hetero_subset", 1);
+                        out.count("oracle.compared", 1);
+                        if !(d <= 1e-11) {
+                            out.violate("records-mismatch", "hetero-subset", format!("{what}: subset {pick:?} behaves differently from the directly built parameter set: {bs:?} vs {bd:?}"));
                         }
                     }
                 }
